@@ -90,9 +90,9 @@ type PPack struct {
 }
 
 const (
-	sStartColl = "start_collection"
-	sAddPart   = "add_partition"
-	sStopColl  = "stop_collection"
+	sStartColl  = "start_collection"
+	sAddPart    = "add_partition"
+	sStopColl   = "stop_collection"
 	sAddDropped = "add_dropped_collection"
 )
 
@@ -105,6 +105,11 @@ type Step struct {
 	Async bool `json:"async,omitempty"`
 	// DelayMs: the call is made that much later than its preconditions allow (schedule perturbation only)
 	DelayMs int `json:"delay_ms,omitempty"`
+	// Dup: this call repeats an earlier notification of the same object (which has returned long ago)
+	Dup bool `json:"dup,omitempty"`
+	// Twin: the same notification arrives twice at the same time: the call is made by two goroutines behind a start
+	// barrier (list path and watch path of the catalog reader, or two puts of one object in quick succession)
+	Twin bool `json:"twin,omitempty"`
 	// MQDown: the message queue cannot be reached while this call runs (the connection check of a new handler fails)
 	MQDown bool `json:"mq_down,omitempty"`
 }
@@ -133,12 +138,15 @@ type Case struct {
 	// MsgPositions: messages carry their own position (channel, message id), as older / patched Milvus
 	// dispatchers deliver them. The dispatcher of the Milvus pkg pinned in go.mod delivers messages WITHOUT a
 	// position (MqTtMsgStream no longer sets one), which is the default here.
-	MsgPositions bool              `json:"msg_positions"`
+	MsgPositions bool `json:"msg_positions"`
 	// RegDelayMs: the dispatcher takes that long to register the given source vchannel (a slow shard stream)
-	RegDelayMs  map[string]int     `json:"reg_delay_ms,omitempty"`
-	Serial      bool               `json:"serial_feed,omitempty"` // feed one pack at a time across all pchannels in a seeded order
-	FeedOrder   []string           `json:"feed_order,omitempty"`
-	Note        string             `json:"note,omitempty"`
+	RegDelayMs map[string]int `json:"reg_delay_ms,omitempty"`
+	// TargetDelayUs: every lookup of the downstream catalog takes up to that long (seeded), which widens the window
+	// between a check and the registration that follows it
+	TargetDelayUs int      `json:"target_lookup_delay_us,omitempty"`
+	Serial        bool     `json:"serial_feed,omitempty"` // feed one pack at a time across all pchannels in a seeded order
+	FeedOrder     []string `json:"feed_order,omitempty"`
+	Note          string   `json:"note,omitempty"`
 }
 
 func srcPName(i int) string { return fmt.Sprintf("src-rootcoord-dml_%d", i) }
@@ -150,6 +158,8 @@ func vName(p string, coll int64, idx int) string {
 // hybrid timestamp helpers (physical ms << 18 | logical)
 func hts(ms uint64, logical uint64) uint64 { return ms<<18 | logical }
 
-func packDep(p string, idx, coll int) Dep { return Dep{PackP: p, PackIdx: idx, PackColl: coll, IsPack: true} }
-func stepDep(i int) Dep                    { return Dep{Step: i, IsStep: true} }
-func regDep(v string) Dep                  { return Dep{Reg: v} }
+func packDep(p string, idx, coll int) Dep {
+	return Dep{PackP: p, PackIdx: idx, PackColl: coll, IsPack: true}
+}
+func stepDep(i int) Dep   { return Dep{Step: i, IsStep: true} }
+func regDep(v string) Dep { return Dep{Reg: v} }
